@@ -47,7 +47,7 @@ func (in *Interp) builtin(g *G, fr *Frame, b *ssa.Builtin, args []Value, call *s
 			n := 0
 			for _, sg := range x.R.(*Rope).Segs {
 				switch {
-				case sg.Atom != nil:
+				case sg.Atom != nil, sg.Opq != nil:
 					n += 46 // nominal non-zero length of an opaque string
 				case sg.Sym != nil:
 					n += len(sg.Sym)
@@ -151,12 +151,8 @@ func (in *Interp) builtin(g *G, fr *Frame, b *ssa.Builtin, args []Value, call *s
 		return mkInt(uint64(n), 64)
 	case "delete":
 		if args[0].R != nil {
-			ks, ok := keyOf(args[1])
-			if !ok {
-				unsupported("delete with symbolic key")
-			}
 			in.raceAccess(args[0].R.(*MapV), true)
-			args[0].R.(*MapV).del(ks)
+			in.mapDel(g, args[0].R.(*MapV), args[1])
 		}
 		return Value{}
 	case "close":
